@@ -82,7 +82,7 @@ func Ops(sp *Spec) []string {
 		}
 		return ops
 	case "json":
-		return []string{"Check", "Len", "NextLexeme:3", "NextLexeme:100"}
+		return []string{"Check", "Len", "NextLexeme:3", "NextLexeme:100", "Drain:2", "Drain:1000"}
 	case "enum":
 		return []string{"Check", "Len", "Values", "GetAST"}
 	}
@@ -152,6 +152,17 @@ func Do(o *Obj, op string) (res string, kept []Retained) {
 			var l uint
 			r := lib.Safe(func() error { var err error; l, err = d.Len(); return err })
 			return fmt.Sprintf("%d|%s", l, canonRes(r)), nil
+		case "Drain:2", "Drain:1000":
+			// advance the live object's own cursor (as Schema.Validate does with a caller's document);
+			// Check and Len of the same object must not depend on where the cursor stands
+			var k int
+			fmt.Sscanf(op, "Drain:%d", &k)
+			for i := 0; i < k; i++ {
+				if _, err := d.NextLexeme(); err != nil {
+					break
+				}
+			}
+			return "drained", nil
 		default:
 			var k int
 			fmt.Sscanf(op, "NextLexeme:%d", &k)
